@@ -662,7 +662,7 @@ fn emit_uni(ctx: &mut Ctx, conns: &[Conn], order: &[(usize, usize)], cap: usize)
 
 pub fn run(ctx: &mut Ctx) {
     let mut r = ctx.rng.fork();
-    let n = ctx.n(400, 6000);
+    let n = ctx.n(400, 40000);
     for k in 0..n {
         let v6 = r.chance(1, 4);
         let nconn = r.range(2, 6) as usize;
@@ -706,7 +706,7 @@ pub fn run(ctx: &mut Ctx) {
     }
     // the parallel path: connections concurrently live on ONE worker of a real pool whose configured capacity
     // is exactly what they need, against each connection analysed alone
-    let rounds = ctx.n(12, 150);
+    let rounds = ctx.n(12, 600);
     for _ in 0..rounds {
         use crate::registry::c10::{conns_for, group, round_robin, run_pool, sequential, worker_of, Kind};
         for kind in [Kind::Http, Kind::Tls] {
